@@ -483,6 +483,9 @@ def run_api(w, case, stats):
     else:
         w.make_dir_input(w.indir)
         path = w.indir
+    # a temporary directory made anywhere but below extract_dir still stays inside the scratch world
+    os.makedirs(os.path.join(w.top, "tmpdefault"))
+    tempfile.tempdir = os.path.join(w.top, "tmpdefault")
     before = snapshot(w.top)
     left = "none"
     state = {"analysed": None}
@@ -569,6 +572,7 @@ def run_api(w, case, stats):
         except Exception as ex:
             left = kind_of(ex)
         events.append(dict(ev="cleanup", left=left, tmp_exists=False, outside=outside_now([]), made=len(REC["mkdtemp"])))
+    tempfile.tempdir = None
     return events
 
 
